@@ -39,9 +39,25 @@ type scRaw struct {
 	Pl   string `json:"pl"`
 }
 
+// rawMap: TLC prints the empty function as an empty array.
+type rawMap map[string]scRaw
+
+func (m *rawMap) UnmarshalJSON(b []byte) error {
+	if string(b) == "[]" {
+		*m = rawMap{}
+		return nil
+	}
+	x := map[string]scRaw{}
+	if err := json.Unmarshal(b, &x); err != nil {
+		return err
+	}
+	*m = x
+	return nil
+}
+
 type scenario struct {
 	Calls map[string]scCall `json:"calls"`
-	Raws  map[string]scRaw  `json:"raws"`
+	Raws  rawMap            `json:"raws"`
 	Conns []string          `json:"conns"`
 	Objs  []int             `json:"objs"`
 	Fail  []string          `json:"fail"`
@@ -87,23 +103,136 @@ type callState struct {
 	out      outRec
 }
 
-// c04Run replays one behaviour; returns the failure class ("" = conforms) and a detail.
-func c04Run(sc *scenario, b *behaviour) (string, string, interface{}) {
-	objNames := []string{}
-	sort.Ints(sc.Objs)
-	for _, o := range sc.Objs {
-		objNames = append(objNames, fmt.Sprint(o))
+// objCode: the objects of the second service are numbered 201, 202, .. (GenSystem.ObjCode).
+func objCode(svc, obj int) int {
+	if svc == 1 {
+		return obj
 	}
-	r, err := newRig(newAuth("yes", nil), objNames, true)
+	return 100*svc + obj
+}
+
+// caller: one bus.Client of the specification.
+type caller struct {
+	sess  bus.Session
+	proxy func(name string, svc, obj uint32) (bus.Proxy, error)
+}
+
+// buildServices creates the probe objects the scenario names: codes below 100 belong to the probe service, code
+// 100*s+o is object o of one more service "probe<s>".  Returns model service -> real service id.
+func buildServices(objs []int, gating bool) (*rig, map[int]uint32) {
+	sort.Ints(objs)
+	first := []string{}
+	more := map[int][]string{}
+	for _, o := range objs {
+		if o < 100 {
+			first = append(first, fmt.Sprint(o))
+		} else {
+			more[o/100] = append(more[o/100], fmt.Sprint(o))
+		}
+	}
+	r, err := newRig(newAuth("yes", nil), first, gating)
 	if err != nil {
 		hlib.Fatal("rig: %v", err)
 	}
+	svcs := map[int]uint32{1: r.svcID}
+	for s, names := range more {
+		id, err := r.addService(fmt.Sprint("probe", s), names)
+		if err != nil {
+			hlib.Fatal("rig: service %d: %v", s, err)
+		}
+		svcs[s] = id
+	}
+	return r, svcs
+}
+
+// buildCallers makes the bus.Client objects of the specification.  A connection with ONE client gets a bus.Cache
+// (every call draws a fresh proxy from it, as a user of a Session does).  A connection with SEVERAL clients gets
+// them the way bus.NewClientObject makes them: one bus.NewClient per client on the channel of the one end point,
+// each with its own message id counter starting at 1 (shared[conn] = true).
+func (r *rig) buildCallers(clients map[string]string, svcs map[int]uint32) (map[string]*caller, map[string]bool, error) {
+	perConn := map[string][]string{}
+	for cl, cn := range clients {
+		perConn[cn] = append(perConn[cn], cl)
+	}
+	callers := map[string]*caller{}
+	shared := map[string]bool{}
+	cns := []string{}
+	for cn := range perConn {
+		cns = append(cns, cn)
+	}
+	sort.Strings(cns)
+	for _, cn := range cns {
+		cls := perConn[cn]
+		sort.Strings(cls)
+		c := r.conns[cn]
+		cache, err := r.setupClient(c)
+		if err != nil {
+			return nil, nil, err
+		}
+		meta := cache.Services[r.svcID]
+		for s, id := range svcs {
+			if s != 1 {
+				cache.AddService(fmt.Sprint("probe", s), id, meta)
+			}
+		}
+		if len(cls) == 1 {
+			callers[cls[0]] = &caller{sess: cache, proxy: func(name string, svc, obj uint32) (bus.Proxy, error) {
+				if _, ok := cache.Names[name]; !ok {
+					cache.AddService(name, svc, meta)
+				}
+				return cache.Proxy(name, obj)
+			}}
+			continue
+		}
+		shared[cn] = true
+		channel := bus.NewChannel(c.ep, bus.DefaultCap())
+		for _, cl := range cls {
+			client := bus.NewClient(channel)
+			callers[cl] = &caller{sess: cache, proxy: func(name string, svc, obj uint32) (bus.Proxy, error) {
+				return bus.NewProxy(client, meta, svc, obj), nil
+			}}
+		}
+	}
+	return callers, shared, nil
+}
+
+// invoke makes call `tag` through the generated proxy (hello, action 100) or by action id; the outcome in the
+// vocabulary of the specification.  A method without result (ping, action 101) answers with an empty payload:
+// the result "for its own arguments" is then its own tag; anything else in the payload is decoded as a result of hello.
+func invoke(cl *caller, px bus.Proxy, act int, tag string) outRec {
+	if act == 100 {
+		ret, err := pong.MakePingPong(cl.sess, px).Hello(tag)
+		if err != nil {
+			return outRec{"error", errClass(err.Error())}
+		}
+		return outRec{"reply", trimRe(ret)}
+	}
+	ret, err := px.CallID(uint32(act), strPayload(tag))
+	if err != nil {
+		return outRec{"error", errClass(err.Error())}
+	}
+	if len(ret) == 0 {
+		return outRec{"reply", tag}
+	}
+	m := net.NewMessage(net.NewHeader(net.Reply, 0, 0, 0, 0), ret)
+	return outRec{"reply", respVal(&m)}
+}
+
+// seenVal: the value of the specification for a frame a client end point received.
+func seenVal(m *net.Message) string {
+	if m.Header.Type == net.Reply && len(m.Payload) == 0 {
+		return "void"
+	}
+	return respVal(m)
+}
+
+// c04Run replays one behaviour; returns the failure class ("" = conforms) and a detail.
+func c04Run(sc *scenario, b *behaviour) (string, string, interface{}) {
+	r, svcs := buildServices(sc.Objs, true)
 	defer r.close()
 	for _, t := range sc.Fail {
 		r.fail[t] = true
 	}
-	// connections, one bus.Cache (= one session) per client of the specification
-	caches := map[string]*bus.Cache{}
 	sort.Strings(sc.Conns)
 	for _, cn := range sc.Conns {
 		if _, err := r.connect(cn); err != nil {
@@ -114,26 +243,16 @@ func c04Run(sc *scenario, b *behaviour) (string, string, interface{}) {
 	for _, k := range sc.Calls {
 		clients[k.Client] = k.Conn
 	}
-	cnames := []string{}
-	for cl := range clients {
-		cnames = append(cnames, cl)
+	callers, shared, err := r.buildCallers(clients, svcs)
+	if err != nil {
+		return "c04/no-outcome", "set-up call: " + err.Error(), map[string]interface{}{"steps": "set-up (authenticate, metaObject)"}
 	}
-	sort.Strings(cnames)
-	authed := map[string]bool{}
-	for _, cl := range cnames {
-		c := r.conns[clients[cl]]
-		if authed[c.name] {
-			hlib.Fatal("scenario with two clients on one connection is not replayed")
-		}
-		authed[c.name] = true
-		cache, err := r.setupClient(c)
-		if err != nil {
-			return "c04/no-outcome", "set-up call: " + err.Error(), map[string]interface{}{"steps": "set-up (authenticate, metaObject)"}
-		}
-		caches[cl] = cache
+	used := map[string]bool{}
+	for _, cn := range clients {
+		used[cn] = true
 	}
 	for _, cn := range sc.Conns {
-		if !authed[cn] {
+		if !used[cn] {
 			c := r.conns[cn]
 			if err := bounded("authenticate call", func() error { return bus.AuthenticateUser(c.ep, "u", "t") }); err != nil {
 				return "c04/no-outcome", "set-up call: " + err.Error(), nil
@@ -155,6 +274,9 @@ func c04Run(sc *scenario, b *behaviour) (string, string, interface{}) {
 	r.w.mu.Lock()
 	for _, c := range r.conns {
 		c.base = c.cli.w.lastID
+		if shared[c.name] {
+			c.base = 1 // the clients made for this scenario count from 1, all of them
+		}
 	}
 	base := r.callDeliveriesLocked()
 	r.rec.execs = nil
@@ -172,8 +294,14 @@ func c04Run(sc *scenario, b *behaviour) (string, string, interface{}) {
 	returnedN = base
 
 	states := map[string]*callState{}
-	realObj := func(o int) uint32 {
-		if h, ok := r.objs[fmt.Sprint(o)]; ok {
+	realSvc := func(s int) uint32 {
+		if id, ok := svcs[s]; ok {
+			return id
+		}
+		return 0x7fff0000 + uint32(s) // a service id that does not exist
+	}
+	realObj := func(s, o int) uint32 {
+		if h, ok := r.objs[fmt.Sprint(objCode(s, o))]; ok {
 			return h.id
 		}
 		return 0x7ffffff0 + uint32(o) // an object id that does not exist
@@ -193,43 +321,19 @@ func c04Run(sc *scenario, b *behaviour) (string, string, interface{}) {
 				started = func() bool { return h.frames > before || cs.returned }
 			}
 			states[k] = cs
-			svc := r.svcID
-			if kc.Svc != 1 {
-				svc = 0x7fff0000 + uint32(kc.Svc)
-			}
-			cache := caches[kc.Client]
-			if kc.Svc != 1 {
-				cache.AddService(fmt.Sprint("svc", kc.Svc), svc, cache.Services[r.svcID])
-			}
 			name := "probe"
 			if kc.Svc != 1 {
-				name = fmt.Sprint("svc", kc.Svc)
+				name = fmt.Sprint("probe", kc.Svc)
 			}
-			// a fresh proxy per call: what a user of bus.Cache (or a Session) does
-			px, err := cache.Proxy(name, realObj(kc.Obj))
+			cl := callers[kc.Client]
+			px, err := cl.proxy(name, realSvc(kc.Svc), realObj(kc.Svc, kc.Obj))
 			if err != nil {
 				hlib.Fatal("proxy: %v", err)
 			}
 			wg.Add(1)
 			go func(k string, kc scCall) {
 				defer wg.Done()
-				var out outRec
-				if kc.Act == 100 {
-					ret, err := pong.MakePingPong(cache, px).Hello(k)
-					if err != nil {
-						out = outRec{"error", errClass(err.Error())}
-					} else {
-						out = outRec{"reply", trimRe(ret)}
-					}
-				} else {
-					ret, err := px.CallID(uint32(kc.Act), strPayload(k))
-					if err != nil {
-						out = outRec{"error", errClass(err.Error())}
-					} else {
-						m := net.NewMessage(net.NewHeader(net.Reply, 0, 0, 0, 0), ret)
-						out = outRec{"reply", respVal(&m)}
-					}
-				}
+				out := invoke(cl, px, kc.Act, k)
 				r.w.mu.Lock()
 				cs.returned, cs.out = true, out
 				returnedN++
@@ -239,16 +343,13 @@ func c04Run(sc *scenario, b *behaviour) (string, string, interface{}) {
 		case "raw":
 			rw := sc.Raws[st[1]]
 			c := r.conns[rw.Conn]
-			svc := r.svcID
-			if rw.Svc != 1 {
-				svc = 0x7fff0000 + uint32(rw.Svc)
-			}
+			svc := realSvc(rw.Svc)
 			id := c.base + uint32(rw.ID) - 1
 			payload := strPayload(rw.Tag)
 			if rw.Pl == "bad" {
 				payload = []byte{0xff, 0xff, 0xff, 0x7f}
 			}
-			hdr := net.NewHeader(typeCode[rw.Type], svc, realObj(rw.Obj), uint32(rw.Act), id)
+			hdr := net.NewHeader(typeCode[rw.Type], svc, realObj(rw.Svc, rw.Obj), uint32(rw.Act), id)
 			if err := c.ep.Send(net.NewMessage(hdr, payload)); err != nil {
 				hlib.Fatal("raw send: %v", err)
 			}
@@ -295,7 +396,7 @@ func c04Run(sc *scenario, b *behaviour) (string, string, interface{}) {
 		for {
 			select {
 			case m := <-c.sniff:
-				got.Seen[c.name] = append(got.Seen[c.name], seenRec{typeName[m.Header.Type], int(m.Header.ID) - int(c.base) + 1, respVal(m)})
+				got.Seen[c.name] = append(got.Seen[c.name], seenRec{typeName[m.Header.Type], int(m.Header.ID) - int(c.base) + 1, seenVal(m)})
 			default:
 				break drain2
 			}
